@@ -58,6 +58,7 @@ mod store;
 
 use crate::DecodeResult;
 use crate::arrow::push_decoder::{ParquetPushDecoder, ParquetPushDecoderBuilder, PushDecoderInput};
+use crate::arrow::schema::virtual_type::is_virtual_column;
 #[cfg(feature = "object_store")]
 pub use store::*;
 
@@ -666,10 +667,14 @@ impl<T: AsyncFileReader + Send + 'static> ParquetRecordBatchStreamBuilder<T> {
 
         // Ensure schema of ParquetRecordBatchStream respects projection, and does
         // not store metadata (same as for ParquetRecordBatchReader and emitted RecordBatches)
+        //
+        // Virtual columns (e.g. row numbers) are appended after the file's columns, are not
+        // covered by the projection mask and are always part of the emitted RecordBatches,
+        // so they are always part of the schema.
         let projection_len = projection.mask.as_ref().map_or(usize::MAX, |m| m.len());
-        let projected_fields = schema
-            .fields
-            .filter_leaves(|idx, _| idx < projection_len && projection.leaf_included(idx));
+        let projected_fields = schema.fields.filter_leaves(|idx, field| {
+            is_virtual_column(field) || (idx < projection_len && projection.leaf_included(idx))
+        });
         let projected_schema = Arc::new(Schema::new(projected_fields));
 
         let decoder = ParquetPushDecoderBuilder {
@@ -2003,6 +2008,41 @@ mod tests {
                 })
             },
         );
+    }
+
+    #[tokio::test]
+    async fn test_stream_schema_includes_virtual_columns_with_projection() {
+        // The stream's schema must match the schema of the batches it yields, also when an
+        // explicit projection mask (which does not cover the virtual columns) is set
+        let a = Arc::new(Int32Array::from(vec![1, 2, 3])) as ArrayRef;
+        let b = Arc::new(Int32Array::from(vec![4, 5, 6])) as ArrayRef;
+        let batch = RecordBatch::try_from_iter([("a", a), ("b", b)]).unwrap();
+        let mut buf = Vec::new();
+        let mut writer = ArrowWriter::try_new(&mut buf, batch.schema(), None).unwrap();
+        writer.write(&batch).unwrap();
+        writer.close().unwrap();
+
+        let row_number_field = Arc::new(
+            Field::new("row_number", DataType::Int64, false).with_extension_type(RowNumber),
+        );
+        let options = ArrowReaderOptions::new()
+            .with_virtual_columns(vec![row_number_field])
+            .unwrap();
+        let builder =
+            ParquetRecordBatchStreamBuilder::new_with_options(TestReader::new(buf.into()), options)
+                .await
+                .unwrap();
+        let mask = ProjectionMask::leaves(builder.parquet_schema(), [1]);
+        let stream = builder.with_projection(mask).build().unwrap();
+        let stream_schema = stream.schema().clone();
+        let batches = stream.try_collect::<Vec<_>>().await.unwrap();
+
+        assert_eq!(
+            stream_schema.fields().iter().map(|f| f.name().as_str()).collect::<Vec<_>>(),
+            vec!["b", "row_number"]
+        );
+        assert_eq!(batches.len(), 1);
+        assert_eq!(batches[0].schema().fields(), stream_schema.fields());
     }
 
     #[tokio::test]
